@@ -24,10 +24,10 @@ CLAIMED = True
 LEVEL = "proof"
 TECHNIQUE = ("Lean 4 proofs (induction over arbitrary engine-request sequences and over instruction trees, refinement of the "
              "lazily created namespace stack to a plain stack of frames, per-site theorems for the old and the repaired form of "
-             "twelve code sites (plus fixed-form obligations on the alias copy/override functions and the import order)) about a hand model of XSLTEngineImpl's result-event machine and NamespacesHandler; a regex "
+             "thirteen code sites (plus fixed-form obligations on the alias copy/override functions and the import order)) about a hand model of XSLTEngineImpl's result-event machine and NamespacesHandler; a regex "
              "translator (translate/c14_variant.py) selects the model variant the working tree has; correspondence run of "
              "generated stylesheets against the real library with a namespace-aware re-parse and an independent oracle")
-LEVEL_TEXT = ("Machine-checked (Props/C14.lean, 27 theorems): for EVERY sequence of engine requests, and for every instruction "
+LEVEL_TEXT = ("Machine-checked (Props/C14.lean, 29 theorems): for EVERY sequence of engine requests, and for every instruction "
               "tree run by the model's interpreter, no pending start tag holds two attributes with one qname; the invented "
               "ns<N> prefix is unbound in the whole namespace stack (pigeonhole); the lazily created XalanNamespacesStack "
               "refines a plain stack of frames for every push/pop/add history; in every engine state xsl:attribute (with and "
@@ -44,7 +44,7 @@ LEVEL_TEXT = ("Machine-checked (Props/C14.lean, 27 theorems): for EVERY sequence
               "of every real output against what the stylesheet asked for.")
 LEVEL_NOTE = ("Trusted: Lean kernel (leanchecker in the thorough tier); axioms propext/Classical.choice/Quot.sound only; the hand "
               "transcription XalanModel/C14/{Engine,Stylesheet}.lean, validated by the correspondence run and bounded by generator "
-              "coverage; translate/c14_variant.py (normalised-text recognition of twelve code sites (plus fixed-form obligations on the alias copy/override functions and the import order), cross-checked by the "
+              "coverage; translate/c14_variant.py (normalised-text recognition of thirteen code sites (plus fixed-form obligations on the alias copy/override functions and the import order), cross-checked by the "
               "correspondence run); QName strings abstracted to (prefix, local) pairs; expat as reference parser; the oracle in "
               "gen/c14_gen.py. There is no single end-to-end theorem 'exec output has the requested names': the theorems are "
               "per engine operation / per code site and about qname uniqueness for whole trees; the interpreter exec is "
@@ -83,6 +83,8 @@ THEOREMS = [
     "XalanModel.Props.C14.alias_override_assigns",
     "XalanModel.Props.C14.alias_copy_keeps",
     "XalanModel.Props.C14.alias_highest_precedence_wins",
+    "XalanModel.Props.C14.fragment_self_contained_fixed",
+    "XalanModel.Props.C14.fragment_depends_on_context_counterexample",
 ]
 
 XML = G.XML
